@@ -22,7 +22,7 @@ RULE = (
     'histories of one coordinate over FACE^F (F<=3; 18 values: 0,-0,+-1e-17,1-1e-16,1,1+2e-16,0.5 and float '
     'neighbours,0.25,0.75,0.1,0.9,-0.3,1.6,-1,2) on each axis x LATTICES x integer shift patterns {-2,-1,0,1,3}^F '
     '(all for F=2, 6 fixed patterns for F=3); all-axes histories (F=2, 5 values on all 6 coordinates); two-atom '
-    'tracks; evaluation = one (history, shift) through the real Trajectory; distinct = distinct observed '
+    'tracks; for F<=2 six further values 1e-9..1e-6 from the faces; input array unchanged; query-then-extend history; evaluation = one (history, shift) through the real Trajectory; distinct = distinct observed '
     '(positions, displacements) byte patterns'
 )
 LEVEL_TEXT = (
